@@ -57,3 +57,24 @@ Print Assumptions C14_marg_match_spec.
 Theorem C14_example_tight : entropy_list (map snd ex_p) = rden (ub_data ex_theta ex_ss ex_d).
 Proof. exact ex_tight. Qed.
 Print Assumptions C14_example_tight.
+
+(* singleton constraints: the product of the marginals is feasible and has the largest entropy (Proofs/C14_Product.v) *)
+From Verif Require Import C14_Product.
+Theorem C14_entropy_le_sum_marginals : forall (n : nat) (p : pd),
+  NoDup (keys p) -> nonneg_pd p = true -> (mass p == 1)%Q -> (forall x, In x (keys p) -> length x = n) ->
+  entropy_list (map snd p) <= rsum (map (fun i => entropy_list (map snd (marg p [i]))) (range n)).
+Proof. exact entropy_le_sum_marginals. Qed.
+Print Assumptions C14_entropy_le_sum_marginals.
+Theorem C14_singleton_constraints_bound : forall (n : nat) (d p : pd),
+  NoDup (keys p) -> nonneg_pd p = true -> (mass p == 1)%Q -> (forall x, In x (keys p) -> length x = n) ->
+  (forall i k, (i < n)%nat -> (get0 k (marg p [i]) == get0 k (marg d [i]))%Q) ->
+  entropy_list (map snd p) <= rsum (map (fun i => entropy_list (map snd (marg d [i]))) (range n)).
+Proof. exact singleton_constraints_bound. Qed.
+Print Assumptions C14_singleton_constraints_bound.
+Theorem C14_entropy_product : forall (n : nat) (alph : list (list nat)) (d : pd),
+  length alph = n -> (forall i, (i < n)%nat -> NoDup (nth i alph [])) ->
+  nonneg_pd d = true -> (mass d == 1)%Q ->
+  (forall x v, In (x, v) d -> (v == 0)%Q \/ forall i, (i < n)%nat -> In (nth i x 0%nat) (nth i alph [])) ->
+  entropy_list (map snd (product_pd n (cart alph) d)) = rsum (map (fun i => entropy_list (map snd (marg d [i]))) (range n)).
+Proof. exact entropy_product. Qed.
+Print Assumptions C14_entropy_product.
